@@ -55,6 +55,15 @@ pub(crate) mod verif_u {
     pub(crate) fn set_running<T: Config>(ep: &mut UdpProtocol<T>, running: bool) {
         ep.state = if running { ProtocolState::Running } else { ProtocolState::Synchronizing };
     }
+    /// 0 Running, 1 Synchronizing, 2 Disconnected, 3 Shutdown
+    pub(crate) fn set_state<T: Config>(ep: &mut UdpProtocol<T>, st: u8) {
+        ep.state = match st {
+            0 => ProtocolState::Running,
+            1 => ProtocolState::Synchronizing,
+            2 => ProtocolState::Disconnected,
+            _ => ProtocolState::Shutdown,
+        };
+    }
     pub(crate) fn pending_len<T: Config>(ep: &UdpProtocol<T>) -> usize {
         ep.pending_output.len()
     }
